@@ -283,6 +283,56 @@ pub fn run(ctx: &mut Ctx) {
         check(ctx, &v, "random");
         ctx.sample(J::obj().set("argv", J::arr_s(&v)));
     });
+    // characters whose UTF-16 code units share a byte with one of the special ASCII characters (U+0422 ends in 0x22,
+    // U+305C and the low surrogate of U+1F45C in 0x5C, U+0120 in 0x20, U+5C00 / U+2200 begin with them ...): quoting
+    // works on 16-bit units, never on bytes.  Exhaustive up to length 3 over this alphabet, then random strings in
+    // which every unit is drawn to collide.
+    const UNI: [&str; 12] = ["a", "\"", "\\", " ", "\u{0422}", "\u{305C}", "\u{1F45C}", "\u{0120}", "\u{0109}", "\u{5C00}", "\u{2200}", "\u{2022}"];
+    let nu: u64 = 1 + 12 + 144 + 1728;
+    ctx.family("utf16-lookalikes", nu, |ctx, _rng, i| {
+        let mut n = i;
+        let mut v = vec![];
+        while n > 0 {
+            n -= 1;
+            v.push(UNI[(n % 12) as usize]);
+            n /= 12;
+        }
+        v.reverse();
+        let s: String = v.concat();
+        ctx.count("strings_of_utf16_lookalikes", 1);
+        check(ctx, &["prog".to_string(), s.clone()], "utf16-lookalike");
+        check(ctx, &["prog".to_string(), format!("{} x", s), s.clone()], "utf16-lookalike");
+        // (what the first-token rule can represent at all is a platform fact)
+        if legal_prog(&format!("p{}", s)) {
+            check(ctx, &[format!("p{}", s), "x y".to_string()], "utf16-lookalike-in-program");
+        }
+    });
+    let nur = ctx.n(20_000, 1_000_000);
+    ctx.family("utf16-lookalikes-random", nur, |ctx, rng, _i| {
+        let n = rng.range(1, 5);
+        let mut v = vec!["prog".to_string()];
+        for _ in 0..n {
+            let l = rng.range(0, 12);
+            let mut s = String::new();
+            for _ in 0..l {
+                let special = *rng.pick(&[0x22u32, 0x5C, 0x20, 0x09, 0x0A, 0x0B]);
+                let other = rng.range(1, 0xFF) as u32;
+                let cp = match rng.below(5) {
+                    0 => special,                       // the ASCII character itself
+                    1 => (other << 8) | special,        // low byte collides
+                    2 => (special << 8) | other,        // high byte collides
+                    3 => 0x10000 + (rng.below(0x400) as u32) * 0x400 + ((rng.below(4) as u32) << 8 | special), // low surrogate's low byte collides
+                    _ => rng.range(0x21, 0x7e) as u32,
+                };
+                if let Some(c) = char::from_u32(cp) {
+                    s.push(c);
+                }
+            }
+            v.push(s);
+        }
+        ctx.count("strings_of_utf16_lookalikes", 1);
+        check(ctx, &v, "utf16-lookalike");
+    });
     // NUL must be rejected, at every position class
     ctx.family("nul", 64, |ctx, rng, i| {
         let mut v: Vec<Vec<u8>> = vec![b"prog".to_vec()];
